@@ -11,7 +11,8 @@ ID = 'C17'
 ORTHO = [w for w in dwtu.WAVES if pywt.Wavelet(w).family_name in
          ('Daubechies', 'Symlets', 'Coiflets', 'Haar')]
 RULE = ('Wavelet from db1..38, sym2..20, coif1..17, haar (%d names), J in 1..4, size BUILT as '
-        '(evenup(L)+2t)*2^(J-1) so every level is even and >= L (no rejection), dim 1 or 2, dense '
+        '(evenup(L)+2t)*2^(J-1) so every level is even and >= L (no rejection), dim 1 or 2 (in 2-D a third of the cases use a '
+        'different orthogonal wavelet along the rows, 4-tuple form), mode spelled periodization or per, dense '
         'recipes. Oracles on the extracted square operator A: A^T A = I, A A^T = I, inverse operator = '
         'A^T, autograd Jacobian = A; dense: energy and inner products preserved. Non-trivial = L>=4. '
         'Distinct = configuration without seeds.' % len(ORTHO))
@@ -49,7 +50,19 @@ def _case(draw, unit):
         J -= 1
     tmax = max(0, (cap // 2 ** (J - 1) - m) // 2)
     size = [(m + 2 * draw(st.integers(0, min(tmax, 6)))) * 2 ** (J - 1) for _ in range(dim)]
-    return {'dim': dim, 'wave': w, 'J': J, 'size': size,
+    w2 = None
+    if dim == 2 and draw(st.integers(0, 2)) == 0:
+        # a different orthogonal wavelet along the rows (4-tuple form): still an orthogonal transform
+        pick = draw(st.sampled_from(ORTHO))
+        w2 = pick if pick != w else ORTHO[(ORTHO.index(w) + 1 + draw(st.integers(0, len(ORTHO) - 2))) % len(ORTHO)]
+        m2 = dwtu.even_up(dwtu.flen(w2))
+        while J > 1 and m2 * 2 ** (J - 1) > cap:
+            J -= 1
+        size = [max(size[0] // 2 ** (J - 1), m) * 2 ** (J - 1) if True else size[0],
+                (m2 + 2 * draw(st.integers(0, 4))) * 2 ** (J - 1)]
+        size[0] = (dwtu.even_up(max(size[0] // 2 ** (J - 1), m))) * 2 ** (J - 1)
+    return {'dim': dim, 'wave': w, 'wave_row': w2, 'J': J, 'size': size,
+            'mode_spelling': draw(st.sampled_from(['periodization', 'periodization', 'per'])),
             'rx': draw(core.recipe_strategy()), 'ry': draw(core.recipe_strategy()),
             'k': draw(st.integers(0, 10**6))}
 
@@ -64,19 +77,29 @@ def run_case(case):
     r = Result()
     dim, w, J, size = case['dim'], case['wave'], case['J'], list(case['size'])
     L = dwtu.flen(w)
-    for n in size:
-        ns, _ = dwtu.level_lengths(n, L, 'periodization', J)
-        assert all(x % 2 == 0 and x >= L for x in ns), (case, ns)
+    w2 = case.get('wave_row')
+    Ls = [L] if dim == 1 else [L, dwtu.flen(w2 or w)]
+    for n, L_ in zip(size, Ls):
+        ns, _ = dwtu.level_lengths(n, L_, 'periodization', J)
+        assert all(x % 2 == 0 and x >= L_ for x in ns), (case, ns)
     r.nontrivial = L >= 4
+    msp = case.get('mode_spelling', 'periodization')
     r.label('dim%d' % dim, 'J>=2' if J >= 2 else None, 'L>=20' if L >= 20 else None,
-            pywt.Wavelet(w).family_name)
+            pywt.Wavelet(w).family_name, 'separate_row_col_wavelets' if w2 else None,
+            'mode_spelled_per' if msp == 'per' else None)
+    if w2:
+        wc, wr = pywt.Wavelet(w), pywt.Wavelet(w2)
+        dec = tuple(np.array(a) for a in (wc.dec_lo, wc.dec_hi, wr.dec_lo, wr.dec_hi))
+        rec = tuple(np.array(a) for a in (wc.rec_lo, wc.rec_hi, wr.rec_lo, wr.rec_hi))
+    else:
+        dec = rec = w
     with dwtu.default_dtype(torch.float64):
         if dim == 1:
-            fwd = DWT1DForward(J=J, wave=w, mode='periodization')
-            inv = DWT1DInverse(wave=w, mode='periodization')
+            fwd = DWT1DForward(J=J, wave=w, mode=msp)
+            inv = DWT1DInverse(wave=w, mode=msp)
         else:
-            fwd = DWTForward(J=J, wave=w, mode='periodization')
-            inv = DWTInverse(wave=w, mode='periodization')
+            fwd = DWTForward(J=J, wave=dec, mode=msp)
+            inv = DWTInverse(wave=rec, mode=msp)
     ntot = int(np.prod(size))
     full = ntot <= (640 if dim == 1 else 400)
     tol = 1e-9
